@@ -323,6 +323,85 @@ Definition parse_call (univ : list (string * pyobj)) (stmts : list dstmt) (sr : 
                  ds_dynamic_seen := ds_dynamic_seen s' |}, refs'), ONone)
   end.
 
+(* ---- skip_unknown under dynamic registration (config.py _should_skip 846-853, parse_config 2405-2440) ---- *)
+Inductive dskip := DSkFalse | DSkTrue | DSkList (l : list string).
+Definition dsk_truthy (sk : dskip) : bool := match sk with DSkFalse => false | DSkTrue => true | DSkList [] => false | DSkList _ => true end.
+Definition dsk_covers (sk : dskip) (sel : string) : bool :=
+  match sk with DSkFalse => false | DSkTrue => true | DSkList l => existsb (String.eqb sel) l end.
+(* _REGISTRY.matching_selectors(selector) is non-empty *)
+Definition reg_matches (reg : list centry) (sel : string) : bool :=
+  let regmap := fold_left (fun m x => sm_set (to_key x) tt m)
+                          (["gin.macro"; "gin.constant"; "gin.singleton"] ++ map ce_sel reg) sm_empty in
+  match sm_matching (to_key sel) regmap with [] => false | _ :: _ => true end.
+(* repaired code: ParseContext.provides — the name resolves through the file's own imports (it would be registered on first use) *)
+Definition provides (c : dctx) (sel : string) : bool :=
+  c_dynamic c &&
+  match tget (hd "" (split_dot sel)) (c_table c) with
+  | Some (root, _) => match follow root (tl (split_dot sel)) [] with Some _ => true | None => false end
+  | None => false
+  end.
+Definition should_skip_dyn (sk : dskip) (reg : list centry) (c : dctx) (sel : string) : bool :=
+  if reg_matches reg sel || provides c sel then false else dsk_covers sk sel.
+(* the code before the repair consulted the registry only: under dynamic registration a name that is merely not registered
+   YET was dropped *)
+Definition should_skip_dyn_orig (sk : dskip) (reg : list centry) (c : dctx) (sel : string) : bool :=
+  if reg_matches reg sel then false else dsk_covers sk sel.
+
+(* one parse with skip_unknown; [skipf] is the skip decision (should_skip_dyn, or the original one).
+   Each statement that is not skipped is executed by run_stmts on the singleton list.  A reference value is parsed —
+   and its target registered — BEFORE the skip decision on the statement's own target.
+   Placeholders are opaque here; what they do when used is C15 / Model/Stmt.v. *)
+Fixpoint run_stmts_sk (skipf : dskip -> list centry -> dctx -> string -> bool) (univ : list (string * pyobj)) (sk : dskip)
+         (stmts : list dstmt) (s : dstate) (refs : list ((string * string) * string * string)) (c : dctx)
+  : dstate * list ((string * string) * string * string) * dctx * option string :=
+  match stmts with
+  | [] => (s, refs, c, None)
+  | st :: rest =>
+      match st with
+      | DImport d =>
+          match process_import univ c d with
+          | DErr e => if dsk_truthy sk && String.eqb e "ModuleNotFoundError" then run_stmts_sk skipf univ sk rest s refs c
+                      else (s, refs, c, Some e)
+          | DOk c' => run_stmts_sk skipf univ sk rest s refs c'
+          end
+      | DBlock scope sel =>
+          if skipf sk (ds_reg s) c sel then run_stmts_sk skipf univ sk rest s refs c
+          else let '(s', refs', c', e) := run_stmts univ [st] s refs c in
+               match e with Some _ => (s', refs', c', e) | None => run_stmts_sk skipf univ sk rest s' refs' c' end
+      | DBind scope sel param v =>
+          (* a reference to a name that is itself skipped becomes a placeholder (_UnknownConfigurableReference): nothing is
+             resolved or registered for it, and the binding — if its own target is not skipped — stores an opaque value
+             (rendered 0, no reference recorded) *)
+          let placeholder := match v with DRef _ rsel => skipf sk (ds_reg s) c rsel | DVal _ => false end in
+          let st' := if placeholder then DBind scope sel param (DVal 0) else st in
+          let '(s1, refs1, c1, e1) := match v with
+                                      | DVal _ => (s, refs, c, None)
+                                      | DRef _ rsel => if placeholder then (s, refs, c, None) else run_stmts univ [DBlock "" rsel] s refs c
+                                      end in
+          match e1 with
+          | Some _ => (s1, refs1, c1, e1)
+          | None =>
+              if skipf sk (ds_reg s1) c1 sel then run_stmts_sk skipf univ sk rest s1 refs1 c1
+              else let '(s', refs', c', e) := run_stmts univ [st'] s1 refs1 c1 in
+                   match e with Some _ => (s', refs', c', e) | None => run_stmts_sk skipf univ sk rest s' refs' c' end
+          end
+      end
+  end.
+
+Definition parse_call_sk (univ : list (string * pyobj)) (sk : dskip) (stmts : list dstmt)
+           (sr : dstate * list ((string * string) * string * string))
+  : (dstate * list ((string * string) * string * string)) * out :=
+  let '(s, refs) := sr in
+  let '(s', refs', c, e) := run_stmts_sk should_skip_dyn univ sk stmts s refs empty_ctx in
+  match e with
+  | Some cls => ((s', refs'), OErr cls)
+  | None => (({| ds_reg := ds_reg s'; ds_store := ds_store s';
+                 ds_imports := ds_imports s' ++ filter (fun d => negb (existsb (fun x => String.eqb (d_module x) (d_module d) && Bool.eqb (d_from x) (d_from d)
+                                                                          && match d_alias x, d_alias d with Some a, Some b => String.eqb a b | None, None => true | _, _ => false end)
+                                                                          (ds_imports s'))) (c_imports c);
+                 ds_dynamic_seen := ds_dynamic_seen s' |}, refs'), ONone)
+  end.
+
 (* ---- config_str header and selectors under dynamic registration ---- *)
 Fixpoint insert_sorted (s : string) (l : list string) : list string :=
   match l with [] => [s] | x :: r => if String.leb s x then s :: l else x :: insert_sorted s r end.
@@ -390,11 +469,11 @@ Definition config_header (s : dstate) (refs : list ((string * string) * string *
 Definition store_out (s : dstate) : out :=
   OL (map (fun e => OL [OS (fst (fst e)); OS (snd (fst e)); OL (map (fun kv => OL [OS (fst kv); OZ (snd kv)]) (snd e))]) (ds_store s)).
 
-Definition run (p : list (string * pyobj) * list centry * list (list dstmt)) : out :=
+Definition run (p : list (string * pyobj) * list centry * list (dskip * list dstmt)) : out :=
   let '(univ, pre, calls) := p in
   let init := ({| ds_reg := pre; ds_store := []; ds_imports := []; ds_dynamic_seen := false |}, []) in
-  let '(sr, outs) := fold_left (fun acc stmts => let '(sr, outs) := acc in
-                                               let '(sr', o) := parse_call univ stmts sr in (sr', outs ++ [o]))
+  let '(sr, outs) := fold_left (fun acc call => let '(sr, outs) := acc in
+                                               let '(sr', o) := parse_call_sk univ (fst call) (snd call) sr in (sr', outs ++ [o]))
                                calls (init, []) in
   OL (outs ++ [store_out (fst sr); OL (map OS (sort_strings (map ce_sel (ds_reg (fst sr)))));
                (* references in store order *)
